@@ -401,4 +401,16 @@ theorem copy_slot_abs {s : St} (hi : Inv s) (rs : Nat) (src : Loc) (rd o i : Nat
     rw [abs_fits_mono (le_bump _) _ _ (fits_congr _ _ _ _ ag post.fit), abs_congr _ _ _ _ ag]
     exact post.abs_eq
 
+/-- an operation that rewrites only the header of container `o` (and allocates): every old child of `o` reads the same afterwards -/
+theorem kept_children_same {s : St} (hi : Inv s) (r o : Nat) (ho : ownsList s.dep s.h (s.root r) o) (h' : Heap)
+    (hframe : ∀ x, x ≠ o → x < s.h.next → h'.wb x = s.h.wb x ∧ h'.wl x = s.h.wl x) :
+    ∀ kv ∈ (s.h.wl o).live, absV (bump s.dep) h' kv.val = absV s.dep s.h kv.val := by
+  intro kv hkv
+  have ow := owned_of hi r o ho
+  have ag : Agree s.h h' (reachV s.dep s.h kv.val) := fun x hx => by
+    have hx' : x ∈ reachL s.dep s.h (s.h.wl o).live := mem_flatMap_of_mem hkv hx
+    exact hframe x (fun e => ow.notin (e ▸ hx')) (ow.clt x hx')
+  rw [abs_fits_mono (le_bump _) h' _ (fits_congr _ _ _ _ ag (ow.fit kv hkv))]
+  exact abs_congr _ _ _ _ ag
+
 end OtelVerif.C07.N
